@@ -1,4 +1,18 @@
 // Canonical text encoding of values and results (DESIGN Appendix C).
+//   n | t | f | i:<dec> | d:<16 hex of f64 bits> | c:<code point> | b:<0..255> | s:<hex utf8>
+//   a[v,v,…] | m{k=v,…} (sorted by encoded key) | B:<builtin name> | F | C | H:<kind> | E:<kind> | O:<kind>
+use std::collections::HashMap;
+use std::rc::Rc;
+
+use crate::builtins::functions::BUILTINFNS;
+use crate::code::definitions::Instructions;
+use crate::object::array::Array;
+use crate::object::error::ErrorObj;
+use crate::object::file::FileHandle;
+use crate::object::func::{Closure, CompiledFunction};
+use crate::object::hmap::HMap;
+use crate::object::Object;
+
 pub fn hex(bytes: &[u8]) -> String {
     let mut s = String::with_capacity(bytes.len() * 2);
     for b in bytes {
@@ -19,4 +33,179 @@ pub fn unhex(s: &str) -> Option<Vec<u8>> {
         out.push((h * 16 + l) as u8);
     }
     Some(out)
+}
+
+pub fn float_bits(f: f64) -> u64 {
+    if f.is_nan() {
+        0x7ff8000000000000
+    } else {
+        f.to_bits()
+    }
+}
+
+pub fn enc(obj: &Object) -> String {
+    match obj {
+        Object::Null => "n".to_string(),
+        Object::Bool(true) => "t".to_string(),
+        Object::Bool(false) => "f".to_string(),
+        Object::Integer(i) => format!("i:{}", i),
+        Object::Float(f) => format!("d:{:016x}", float_bits(*f)),
+        Object::Char(c) => format!("c:{}", *c as u32),
+        Object::Byte(b) => format!("b:{}", b),
+        Object::Str(s) => format!("s:{}", hex(s.as_bytes())),
+        Object::Arr(a) => {
+            let items: Vec<String> = a.elements.borrow().iter().map(|e| enc(e)).collect();
+            format!("a[{}]", items.join(","))
+        }
+        Object::Map(m) => {
+            let mut items: Vec<String> = m.pairs.borrow().iter().map(|(k, v)| format!("{}={}", enc(k), enc(v))).collect();
+            items.sort();
+            format!("m{{{}}}", items.join(","))
+        }
+        Object::Builtin(b) => format!("B:{}", b.name),
+        Object::Func(_) => "F".to_string(),
+        Object::Clos(_) => "C".to_string(),
+        Object::Return(v) => format!("R:{}", enc(v)),
+        Object::File(fh) => match fh.as_ref() {
+            FileHandle::Stdin => "H:stdin".to_string(),
+            FileHandle::Stdout => "H:stdout".to_string(),
+            FileHandle::Stderr => "H:stderr".to_string(),
+            FileHandle::Reader(_) => "H:reader".to_string(),
+            FileHandle::Writer(_) => "H:writer".to_string(),
+        },
+        Object::Err(e) => match e {
+            ErrorObj::IO(_) => "E:io".to_string(),
+            ErrorObj::Utf8(_) => "E:utf8".to_string(),
+            ErrorObj::Packet(_) => "E:packet".to_string(),
+        },
+        Object::Pcap(_) => "O:pcap".to_string(),
+        Object::Packet(_) => "O:packet".to_string(),
+        Object::Eth(_) => "O:eth".to_string(),
+        Object::Vlan(_) => "O:vlan".to_string(),
+        Object::Ipv4(_) => "O:ipv4".to_string(),
+        Object::Ipv6(_) => "O:ipv6".to_string(),
+        Object::Udp(_) => "O:udp".to_string(),
+        Object::Tcp(_) => "O:tcp".to_string(),
+    }
+}
+
+struct P<'a> {
+    s: &'a [u8],
+    i: usize,
+}
+
+impl<'a> P<'a> {
+    fn peek(&self) -> Option<u8> {
+        self.s.get(self.i).copied()
+    }
+    fn take_until(&mut self, stops: &[u8]) -> &'a str {
+        let st = self.i;
+        while self.i < self.s.len() && !stops.contains(&self.s[self.i]) {
+            self.i += 1;
+        }
+        std::str::from_utf8(&self.s[st..self.i]).unwrap_or("")
+    }
+    fn val(&mut self) -> Option<Rc<Object>> {
+        let c = self.peek()?;
+        self.i += 1;
+        let stops = b",]}= ";
+        let obj = match c {
+            b'n' => Object::Null,
+            b't' => Object::Bool(true),
+            b'f' => Object::Bool(false),
+            b'F' => Object::Func(Rc::new(CompiledFunction::new(Instructions::default(), 0, 0, 0))),
+            b'C' => Object::Clos(Rc::new(Closure::new(Rc::new(CompiledFunction::new(Instructions::default(), 0, 0, 0)), Vec::new()))),
+            b'i' | b'd' | b'c' | b'b' | b's' | b'B' | b'H' | b'E' | b'O' => {
+                if self.peek()? != b':' {
+                    return None;
+                }
+                self.i += 1;
+                let t = self.take_until(stops);
+                match c {
+                    b'i' => Object::Integer(t.parse().ok()?),
+                    b'd' => Object::Float(f64::from_bits(u64::from_str_radix(t, 16).ok()?)),
+                    b'c' => Object::Char(char::from_u32(t.parse().ok()?)?),
+                    b'b' => Object::Byte(t.parse().ok()?),
+                    b's' => Object::Str(String::from_utf8(unhex(t)?).ok()?),
+                    b'B' => Object::Builtin(Rc::new(BUILTINFNS.iter().find(|b| b.name == t)?.clone())),
+                    b'H' => Object::File(Rc::new(match t {
+                        "stdin" => FileHandle::Stdin,
+                        "stdout" => FileHandle::Stdout,
+                        "stderr" => FileHandle::Stderr,
+                        _ => return None,
+                    })),
+                    b'E' => Object::Err(match t {
+                        "io" => ErrorObj::IO(std::io::Error::new(std::io::ErrorKind::Other, "x")),
+                        "utf8" => ErrorObj::Utf8(String::from_utf8(vec![0xff]).unwrap_err()),
+                        _ => return None,
+                    }),
+                    _ => return None,
+                }
+            }
+            b'a' => {
+                if self.peek()? != b'[' {
+                    return None;
+                }
+                self.i += 1;
+                let mut items = Vec::new();
+                if self.peek()? == b']' {
+                    self.i += 1;
+                } else {
+                    loop {
+                        items.push(self.val()?);
+                        match self.peek()? {
+                            b',' => self.i += 1,
+                            b']' => {
+                                self.i += 1;
+                                break;
+                            }
+                            _ => return None,
+                        }
+                    }
+                }
+                Object::Arr(Rc::new(Array::new(items)))
+            }
+            b'm' => {
+                if self.peek()? != b'{' {
+                    return None;
+                }
+                self.i += 1;
+                let mut pairs: HashMap<Rc<Object>, Rc<Object>> = HashMap::new();
+                if self.peek()? == b'}' {
+                    self.i += 1;
+                } else {
+                    loop {
+                        let k = self.val()?;
+                        if self.peek()? != b'=' {
+                            return None;
+                        }
+                        self.i += 1;
+                        let v = self.val()?;
+                        pairs.insert(k, v);
+                        match self.peek()? {
+                            b',' => self.i += 1,
+                            b'}' => {
+                                self.i += 1;
+                                break;
+                            }
+                            _ => return None,
+                        }
+                    }
+                }
+                Object::Map(Rc::new(HMap::new(pairs)))
+            }
+            _ => return None,
+        };
+        Some(Rc::new(obj))
+    }
+}
+
+pub fn dec(s: &str) -> Option<Rc<Object>> {
+    let mut p = P { s: s.as_bytes(), i: 0 };
+    let v = p.val()?;
+    if p.i == s.len() {
+        Some(v)
+    } else {
+        None
+    }
 }
